@@ -86,6 +86,7 @@ class SyncPlan(object):
         self.wrte_cap = None   # max WRTE payload (host's maxdata by default)
         self.hold_fail = False
         self.die_on = set()        # device paths: the sync service dies (CLSE, no reply) when a STAT/LIST/RECV request names one of them
+        self.abort_on_fail = False # after a FAIL the sync service closes the stream at once (CLSE right behind the FAIL, later WRTEs are not acknowledged): older adbd
         self.list_trailer = {}     # path -> bytes appended after the DONE record of a listing
         self.reply_first = False   # the OKAY that acknowledges a request WRTE is sent only after all reply data that request triggered (legal; needs early_reply)
         self.okay_message = b""    # payload carried by the sync OKAY status (its length field is "unused" but a device may fill it)
@@ -302,6 +303,13 @@ class SyncService(object):
 
     def _fail(self, reason, n):
         self.cur["status"] = "FAIL"
+        if self.plan.abort_on_fail:
+            # the request WRTE that triggered this is still acknowledged (it was delivered to the service); nothing after it is
+            self.stream.data.append(Item("WRTE", wire.sync_fail(reason), min_okays=n if self.plan.early_reply else n + 1))
+            self.closed = True
+            self.stream.data.append(Item("CLSE", b"", min_okays=n if self.plan.early_reply else n + 1))
+            self.stream.aborted = True
+            return
         self._reply(wire.sync_fail(reason), n, hold=self.plan.hold_fail)
         self.state = "drain"
 
@@ -368,6 +376,7 @@ class SimDevice(object):
         self.wirebuf = bytearray()
         self.wire_pkt_left = 0     # bytes of the packet at the front of wirebuf not yet handed out
         self.wire_bounds = collections.deque()  # lengths of packets queued in wirebuf
+        self._remote_counter = 0   # (adbd numbers its streams per connection: the same remote ids come back after a re-connect)
         self.connected = False     # CNXN exchanged
         self.host_maxdata = wire.HOST_MAXDATA
         self.host_banner = None
@@ -445,7 +454,9 @@ class SimDevice(object):
                 st.inflight = len(st.written) > st.acked
         elif cmd == "WRTE":
             st = self.streams.get(pkt.arg0)
-            if st is not None and st.remote == pkt.arg1 and not st.host_closed and not st.dead:
+            if st is not None and st.remote == pkt.arg1 and not st.host_closed and not st.dead and st.dev_closed and getattr(st, "aborted", False):
+                st.host_wrtes += 1         # written to a stream whose service is gone: it is never acknowledged
+            elif st is not None and st.remote == pkt.arg1 and not st.host_closed and not st.dead:
                 st.host_wrtes += 1
                 st.ctrl.append(Item("OKAY", ready_at=(self.clock.now() + self.okay_delay) if (self.okay_delay and self.clock) else None))
                 if st.service is not None and not st.dev_closed:
